@@ -101,6 +101,9 @@ def check(rep, prop, tier, seed):
     diff_groups = {}
     for i, *_ in bad:
         diff_groups.setdefault(cs.tags[i]["fmt"], []).append(i)
+    if prop == "C04":
+        from props import fields as F_
+        F_.c_text_accessors(rep, prop, spec, exe, rng)
     pipeline.report_proof_failures(rep, prop, res, diff_groups)
     cells = {(t["fmt"], t["what"], t.get("pattern")) for t in cs.tags}
     rep.cov.update(evaluations=len(cs.cases), distinct_nontrivial=len(cells),
